@@ -917,6 +917,11 @@ func (s *Server) handleBlockCmd(p Peer, block *block.Block) error {
 		return nil
 	}
 	if s.stateSync.IsActive() {
+		if !s.stateSync.NeedBlocks() {
+			// Headers or MPT data are not in sync yet, the module
+			// can't accept blocks (and doesn't know its height).
+			return nil
+		}
 		return s.bSyncQueue.Put(block)
 	}
 	return s.bQueue.Put(block)
